@@ -377,6 +377,49 @@ def parser_outputs(ctx, n):
                 ctx.count("probe_did_not_parse")
 
 
+def harvested_parser_outputs(ctx):
+    """parser outputs for dialect-specific statements (harvested vocabulary, gen/harvest.py): links and hashes of the tree
+    as parsed, of its copy, and after an identity transform"""
+    import sqlglot
+    from ..common import dialect_names, guarded
+    from ..gen.harvest import harvested
+
+    stride = 3 if ctx.tier == "quick" else 1
+    k = 0
+    for di, d in enumerate(x for x in dialect_names() if x):
+        texts, found = harvested(d)
+        for ti, s in enumerate(texts):
+            k += 1
+            if k % ctx.nshards != ctx.shard or (ti + di) % stride:
+                continue
+            if ctx.expired():
+                return
+            st, trees = guarded(lambda: sqlglot.parse(s, read=d), len(s) // 3 + 10)
+            if st != "ok":
+                continue
+            for t in trees:
+                if t is None:
+                    continue
+                try:
+                    hash(t)
+                except Exception as e:
+                    ctx.violation(f"parse-output:hash-raises:{d}:{type(e).__name__}", {"sql": s, "dialect": d, "problem": repr(e)[:200]}, {"sql": s, "dialect": d})
+                    continue
+                ctx.count("evaluations")
+                ctx.count("parser_outputs_checked")
+                ctx.count("harvested_parser_outputs_checked")
+                ctx.nt([d, s])
+                for stage, tree in (("parse-output", t), ("copy-of-parse-output", t.copy()), ("transform-of-parse-output", t.transform(lambda n: n))):
+                    if stage != "parse-output":
+                        hash(tree)
+                    probs = inspect(tree)
+                    ctx.count("invariant_walks")
+                    if probs:
+                        p = probs[0]
+                        ctx.violation(f"{stage}:{p[0]}:{d}:{p[1]}", {"sql": s, "dialect": d, "problem": p}, {"sql": s, "dialect": d})
+                        break
+
+
 def optimizer_outputs(ctx, n):
     from sqlglot import exp
     from sqlglot.errors import SqlglotError
@@ -485,6 +528,7 @@ def worker(ctx):
     ctx.extra["exhaustive_len"] = spec["exh_len"]
     random_sequences(ctx, spec["random"])
     parser_outputs(ctx, spec["parse_statements"])
+    harvested_parser_outputs(ctx)
     optimizer_outputs(ctx, spec["opt_queries"])
     simplify_outputs(ctx, spec["opt_queries"] * 2)
 
